@@ -24,11 +24,22 @@ for line in out.splitlines():
 def norm(n):  # baseline ids are "<package>::<test path>"; integration test binaries use their own name as crate
     return n
 missing = sorted(t for t in want if t not in passed)
-# integration tests: baseline uses package name; try suffix match
+# integration-test and binary targets: the baseline id is <package>::<target>::<test path> (binaries as
+# bin/<name>), cargo prints only the target; compare on the test path and, where present, the target
+def keys(n):
+    parts = n.split('::')
+    out = {n, '::'.join(parts[1:])}
+    if len(parts) > 2:
+        out.add('::'.join(parts[2:]))
+        out.add(parts[1].replace('bin/', '').replace('-', '_') + '::' + '::'.join(parts[2:]))
+    return out
+pkeys = set()
+for pn in passed:
+    pkeys |= {pn, pn.replace('-', '_')}
+    pkeys.add('::'.join(pn.split('::')[1:]))
 still = []
 for t in missing:
-    tail = t.split('::', 1)[1]
-    if any(p.endswith('::' + tail) for p in passed):
+    if any(k in pkeys or k.replace('-', '_') in pkeys for k in keys(t)):
         continue
     still.append(t)
 print(f"baseline stable_pass: {len(want)}; passed now: {len(passed)}; failed now: {len(failed)}")
